@@ -8,31 +8,39 @@
    consistent with every digest logged before for the same write sequence (C11: the digest is a function of the net
    write set - across histories, stores, write orders). *)
 EXTENDS Overlay, TLCExt
-VARIABLES l, seen
+VARIABLES l, seen, it
 TraceLog == ndJsonDeserialize("trace.ndjson")
-tvars == <<store, batch, bopen, blk, tx, hist, l, seen>>
+tvars == <<store, batch, bopen, blk, tx, hist, l, seen, it>>
 Ev == TraceLog[l]
 IsEvent(e) == l <= Len(TraceLog) /\ Ev.op = e /\ l' = l + 1
-Keep == UNCHANGED seen
+NoIt == [open |-> FALSE, lvl |-> "", lo |-> 0, hi |-> 0]
+Closed == ~it.open
+Keep == UNCHANGED <<seen, it>>
+(* while an iterator is open only reads and writes outside its range are recorded (see Overlay: iterator life cycle) *)
+WriteOK(k) == it.open => Outside(k, it.lo, it.hi)
 
-TResetAll == /\ IsEvent("reset") /\ Keep
+TResetAll == /\ IsEvent("reset") /\ UNCHANGED seen /\ it' = NoIt
              /\ store' = [k \in Keys |-> Ev.s0[k]]
              /\ batch' = Empty /\ bopen' = FALSE /\ blk' = Empty /\ tx' = Empty
              /\ hist' = [s0 |-> store', ops |-> <<>>]
-TTPut == IsEvent("tput") /\ Keep /\ TPut(Ev.a[1], Ev.v)
-TBPut == IsEvent("bput") /\ Keep /\ BPut(Ev.a[1], Ev.v)
+TTPut == IsEvent("tput") /\ Keep /\ WriteOK(Ev.a[1]) /\ TPut(Ev.a[1], Ev.v)
+TBPut == IsEvent("bput") /\ Keep /\ WriteOK(Ev.a[1]) /\ BPut(Ev.a[1], Ev.v)
 TTGet == IsEvent("tget") /\ Keep /\ TGet(Ev.a[1]) /\ Ev.obs = ObsTGet(Ev.a[1])
 TBGet == IsEvent("bget") /\ Keep /\ BGet(Ev.a[1]) /\ Ev.obs = ObsBGet(Ev.a[1])
 TTScan == IsEvent("tscan") /\ Keep /\ TScan(Ev.a[1], Ev.a[2]) /\ Ev.obs = ObsTScan(Ev.a[1], Ev.a[2])
 TBScan == IsEvent("bscan") /\ Keep /\ BScan(Ev.a[1], Ev.a[2]) /\ Ev.obs = ObsBScan(Ev.a[1], Ev.a[2])
-TTCommit == IsEvent("tcommit") /\ Keep /\ TCommit
-TTReset == IsEvent("treset") /\ Keep /\ TReset
-TBReset == IsEvent("breset") /\ Keep /\ BReset
-TFlush == IsEvent("flush") /\ Keep /\ Flush
-TNewBatch == IsEvent("newbatch") /\ Keep /\ NewBatch
-TCommitTo == IsEvent("committo") /\ Keep /\ CommitTo
-TBatchCommit == IsEvent("batchcommit") /\ Keep /\ BatchCommit
-TDigest == /\ IsEvent("digest")
+TTCommit == IsEvent("tcommit") /\ Keep /\ Closed /\ TCommit
+TTReset == IsEvent("treset") /\ Keep /\ Closed /\ TReset
+TBReset == IsEvent("breset") /\ Keep /\ Closed /\ BReset
+TFlush == IsEvent("flush") /\ Keep /\ Closed /\ Flush
+TNewBatch == IsEvent("newbatch") /\ Keep /\ Closed /\ NewBatch
+TCommitTo == IsEvent("committo") /\ Keep /\ Closed /\ CommitTo
+TBatchCommit == IsEvent("batchcommit") /\ Keep /\ Closed /\ BatchCommit
+TOpen(lvl) == /\ IsEvent(IF lvl = "tx" THEN "topen" ELSE "bopen") /\ UNCHANGED <<vars, seen>>
+              /\ it' = [open |-> TRUE, lvl |-> lvl, lo |-> Ev.a[1], hi |-> Ev.a[2]]
+TWalk == /\ IsEvent("walk") /\ it.open /\ UNCHANGED <<vars, seen>> /\ it' = NoIt
+         /\ Ev.obs = IF it.lvl = "tx" THEN ObsTScan(it.lo, it.hi) ELSE ObsBScan(it.lo, it.hi)
+TDigest == /\ IsEvent("digest") /\ UNCHANGED it
            /\ UNCHANGED vars
            /\ Ev.obs = WriteSeq(blk)
            /\ \A p \in seen : (p.kid = Ev.kid /\ p.ws = Ev.obs) => p.d = Ev.d
@@ -43,10 +51,11 @@ PropC10T == /\ TypeOK /\ ReadsNewest
             /\ BlkScanImpl(1, K) = LiveScan(BlkView, 1, K)
             /\ TxScanImpl(1, K) = LiveScan(TxView, 1, K)
 
-TraceInit == /\ TLCSet(1, 1) /\ l = 1 /\ seen = {}
+TraceInit == /\ TLCSet(1, 1) /\ l = 1 /\ seen = {} /\ it = NoIt
              /\ store = Empty /\ batch = Empty /\ bopen = FALSE /\ blk = Empty /\ tx = Empty
              /\ hist = [s0 |-> Empty, ops |-> <<>>]
 TraceNext == \/ TResetAll \/ TTPut \/ TBPut \/ TTGet \/ TBGet \/ TTScan \/ TBScan \/ TTCommit \/ TTReset \/ TBReset
+             \/ TOpen("tx") \/ TOpen("blk") \/ TWalk
              \/ TFlush \/ TNewBatch \/ TCommitTo \/ TBatchCommit \/ TDigest
 TraceSpec == TraceInit /\ [][TraceNext]_tvars
 HighWater == TLCSet(1, IF TLCGet(1) < l THEN l ELSE TLCGet(1))
